@@ -165,3 +165,25 @@ Proof. exact exact_index_safe. Qed.
 
 Theorem C03_exact_example : exact_example_check = true.
 Proof. exact exact_example. Qed.
+
+(** ** the QUADRATIC event bound, exact instance: operands with finite coordinates and [n] edges
+    in all ([ops_edges]: consecutive ring points as [fill_queue] walks them); with a budget of
+    [2 n (1 + 6 n) = 12 n^2 + 2 n] events the sweep never stops for lack of budget.  Candidates up
+    to [==]; at most [3 n] of them strictly inside a sub-segment of one edge (for every edge: its
+    two end points and the common point of the two lines); two events per non-collapsed edge. *)
+From GB Require Import QuadBound.
+Theorem C03_event_bound_quadratic :
+  forall cfg fuel (A B : list (polygon NQ)) op,
+  (forall P, In P A -> finite_poly P) -> (forall P, In P B -> finite_poly P) ->
+  (2 * length (ops_edges A B) * (1 + 6 * length (ops_edges A B)) <= fuel)%nat ->
+  subdivide cfg fuel (fill_queue A B op) op <> Panic PEventBudget.
+Proof. exact exact_sweep_terminates_quadratic. Qed.
+
+Theorem C03_events_after_queue_filling :
+  forall (A B : list (polygon NQ)) op,
+  (forall P, In P A -> finite_poly P) -> (forall P, In P B -> finite_poly P) ->
+  (EventBound.nids (f_st (fill_queue A B op)) <= 2 * length (ops_edges A B))%nat.
+Proof. exact nids_le_edges. Qed.
+
+Theorem C03_event_bound_quadratic_example : quad_example_check = true.
+Proof. exact quad_example. Qed.
